@@ -512,8 +512,9 @@ struct Slot {
   MipP m; Prob D; MipP twin; int twin_age;
   bool extra_rows;   // defect already reported for this object: is_satisfiable() left branching constraints in the problem (answers are still compared against the client's data)
   bool skip_ok;      // defect already reported for this object: OK() rejects the state left by add_to_integer_space_dimensions (until the next resolution)
-  Slot() : twin_age(0), extra_rows(false), skip_ok(false) {}
-  void take_flags(const Slot& y) { extra_rows = y.extra_rows; skip_ok = y.skip_ok; }
+  bool nonneg_after_init;  // triage: a sign constraint k*x >= 0 on one variable was added after the tableau had been initialised (the incremental update then merges the two halves of the split variable x)
+  Slot() : twin_age(0), extra_rows(false), skip_ok(false), nonneg_after_init(false) {}
+  void take_flags(const Slot& y) { extra_rows = y.extra_rows; skip_ok = y.skip_ok; nonneg_after_init = y.nonneg_after_init; }
 };
 
 // a mutator, applied identically to the monitored object, its lock-step twin and the log
@@ -555,7 +556,7 @@ void check_ok(Slot& s, const std::string& after) {
   bool partial = state_word(*s.m).compare(0, 21, "PARTIALLY_SATISFIABLE") == 0;
   std::string cls = !threw.empty() ? ":throws" : after != "add_to_integer_space_dimensions" ? "" : partial ? ":cached-point-not-integral" : ":status-not-downgraded";
   // triage by the kind of problem at this moment: the branch-and-bound path (integer variables present) keeps its own cached point
-  if (cls.empty()) cls = s.D.ints.empty() ? ":lp" : ":mip";
+  if (cls.empty()) cls = std::string(s.D.ints.empty() ? ":lp" : ":mip") + (s.nonneg_after_init ? "+sign-constraint-added-after-init" : "");
   violation("C06.ok." + after + cls, (threw.empty() ? "OK() is false after " : "OK() throws (" + threw + ") after ") + after + "; state " + state_word(*s.m) + "; " + show(s.D));
   if (after != "add_to_integer_space_dimensions" || !partial || g_assertions) throw Stop();   // with PPL_ASSERT enabled the next mutator would abort on PPL_ASSERT(OK())
   s.skip_ok = true;   // the state itself is legitimate: go on, without consulting OK() until the problem is resolved
@@ -580,8 +581,12 @@ void check_accessors(Slot& s, const std::string& keyprefix, const std::string& w
 void run_mutator(Slot& s, const Mut& mu, const std::string& pre) {
   tr(pre + "." + mu.text + "; "); hx::count("op." + mu.name);
   hx::distinct("mut|" + mu.name + "|" + state_word(*s.m) + "|" + (s.D.ints.empty() ? "lp" : "mip") + (s.D.cs.empty() ? "|nocons" : ""));
+  if ((mu.k == 0 || mu.k == 1) && state_word(*s.m).find("+init") != std::string::npos)
+    for (size_t i = 0; i < mu.cons.size(); ++i) { const Constraint& q = mu.cons[i]; int nz = 0; bool pos = false;
+      for (dimension_type d = 0; d < q.space_dimension(); ++d) if (q.coefficient(Variable(d)) != 0) { ++nz; pos = q.coefficient(Variable(d)) > 0; }
+      if (nz == 1 && pos && q.is_inequality() && q.inhomogeneous_term() == 0) s.nonneg_after_init = true; }
   mu.apply(*s.m); mu.apply(s.D);
-  if (mu.k == 7) { s.skip_ok = false; s.extra_rows = false; }
+  if (mu.k == 7) { s.skip_ok = false; s.extra_rows = false; s.nonneg_after_init = false; }
   check_ok(s, mu.name);
   if (mu.k == 7) s.D.pricing = pv_code(s.m->get_control_parameter(MIP_Problem::PRICING));   // documentation silent on control parameters after clear()
   if (s.twin) {
